@@ -440,6 +440,14 @@ func (s *Synchronizer) revertTask(
 				break
 			}
 			remoteHeader := remoteBlock.Block.Header
+			// The answer is not verified: at least make sure it is about the block we asked for
+			if remoteHeader.Number != localHeader.Number {
+				s.logger.Error("Remote block has an unexpected number",
+					zap.Uint64("expected", localHeader.Number),
+					zap.Uint64("got", remoteHeader.Number),
+				)
+				break
+			}
 
 			// Double check to avoid reverting the head if the hash is the same
 			if *remoteHeader.Hash == *localHeader.Hash {
